@@ -99,6 +99,7 @@ def asymmetric(dir, freq, dm, dpm, dspr, dpspr, fm, fp, **kwargs):
 
     # Apply cosine-square to modified parameters
     # ===========================================
+    theta, sigma = xr.broadcast(theta, sigma)
     gfth = cartwright(dir, theta, sigma, under_90=False)
 
     return gfth
